@@ -61,7 +61,12 @@ impl Cell {
 
             state.is_reading += 1;
             state.read_locations.track(location, &execution.threads);
-            state.track_read(&execution.threads);
+
+            // An access made by a destructor while a panic unwinds is not
+            // checked: a second panic would abort the process.
+            if !std::thread::panicking() {
+                state.track_read(&execution.threads);
+            }
 
             Reading { state: self.state }
         })
@@ -77,7 +82,10 @@ impl Cell {
 
             state.is_writing = true;
             state.write_locations.track(location, &execution.threads);
-            state.track_write(&execution.threads);
+
+            if !std::thread::panicking() {
+                state.track_write(&execution.threads);
+            }
 
             Writing { state: self.state }
         })
